@@ -32,6 +32,7 @@ def c01_strata(tier: str) -> List[Stratum]:
         Stratum("faulty-replies", scale(tier, 4000, 300000),
                 lambda r, i: tg.gen_mixed(r, 1, 6, ["ok", "ok", "ok", "eof", "truncate", "garbage", "extra", "segment"], True, False)),
         Stratum("thermostat", scale(tier, 5000, 400000), lambda r, i: tg.gen_c16(r)),
+        Stratum("stalled-send", scale(tier, 3000, 200000), lambda r, i: tg.gen_c01_stall(r)),
         Stratum("names", scale(tier, 3000, 200000),
                 lambda r, i: tg.gen_mixed(r, 1, 6, ["ok"], False, False, kinds=[r.choice(tg.TYPE1_KINDS)],
                                           op_filter=lambda o: o == "set_device_name")),
@@ -180,7 +181,8 @@ def build() -> Dict[str, Prop]:
     P["C01"] = Prop("C01", "exploration", to.judge_c01, c01_strata,
                     "seeded random operation sequences (all 15 op kinds, both API types, 1-2 clients) against device models; "
                     "every application write seen at the fake socket is judged as one frame",
-                    REAL_TCP, ["probe:frame>=256", "probe:non-ascii-name", "probe:type2-length-recomputed"])
+                    REAL_TCP, ["probe:frame>=256", "probe:non-ascii-name", "probe:type2-length-recomputed",
+                              "probe:operation-abandoned-by-caller"])
     P["C02"] = Prop("C02", "exploration", to.judge_c02, c02_strata,
                     "seeded boundary-biased arguments for every type-1 and shutter operation; command frame compared "
                     "byte-for-byte with an independent reference layout; out-of-domain arguments must raise with no command frame",
